@@ -14,6 +14,7 @@ import (
 	"net"
 	"net/http/httptest"
 	"sync"
+	"sync/atomic"
 	"time"
 
 	"github.com/gorilla/websocket"
@@ -50,6 +51,10 @@ type World struct {
 	wg        sync.WaitGroup
 	connected chan string
 	wsDialer  func(name string) *websocket.Dialer
+
+	// AliasedCalls counts calls of the functions the world wrote into its ServerConfig value
+	// AFTER NewServer returned (a server must have copied what it needs).
+	AliasedCalls int64
 }
 
 // Handler serves one connection accepted on an endpoint.
@@ -79,6 +84,25 @@ func NewWorldCfg(mode string, cfg *sniproxy.ServerConfig, names []string, h Hand
 	w.wsDialer = wsDialer
 	s := sniproxy.NewServer(&c)
 	w.Server = s
+	// NewServer has returned: the caller's ServerConfig is the caller's again.  Overwrite it, as an
+	// application that reuses the value for another server would; a server that still reads it is seen here.
+	aliased := func() { atomic.AddInt64(&w.AliasedCalls, 1) }
+	c.Lookup = func(string) (*sniproxy.Dest, error) {
+		aliased()
+		return nil, errors.New("verif: the server read its caller's ServerConfig after NewServer returned")
+	}
+	c.DialHome = func(context.Context) (net.Conn, error) {
+		aliased()
+		return nil, errors.New("verif: the server read its caller's ServerConfig after NewServer returned")
+	}
+	c.DialForward = func(context.Context, string) (net.Conn, error) {
+		aliased()
+		return nil, errors.New("verif: the server read its caller's ServerConfig after NewServer returned")
+	}
+	c.SideToken = func(string) (string, error) {
+		aliased()
+		return "", errors.New("verif: the server read its caller's ServerConfig after NewServer returned")
+	}
 	lis, err := net.ListenTCP("tcp", &net.TCPAddr{IP: net.IPv4(127, 0, 0, 1)})
 	if err != nil {
 		return nil, err
